@@ -4,8 +4,10 @@ import (
 	"context"
 	"fmt"
 	"net"
+	"runtime"
 	"strings"
 	"sync"
+	"sync/atomic"
 	"testing"
 	"time"
 
@@ -212,5 +214,125 @@ func TestVP_C17_Exit(t *testing.T) {
 		open = nil
 		verify()
 		st.Case(strings.Join(hist, "; "), nt)
+	})
+}
+
+// TestVP_C17_ExitConcurrent: tunnels of several peers opened and ended at the same time (an
+// agent dispatches the frames of each connection on a goroutine of its own). G workers each
+// run K cycles of open (good, refused, forbidden, destination closes at once) and end (close,
+// reset, close twice, or the peer-wide cleanup of a peer nobody else uses); when every worker
+// is done the handler counts no connection.
+func TestVP_C17_ExitConcurrent(t *testing.T) {
+	st := vp.NewStats("C17", "exit-concurrent", "exit.Handler: 2-8 workers x 5-40 open/end cycles each, concurrently, identifiers disjoint, two shared peers plus one private peer per worker; afterwards ConnectionCount() == 0; non-trivial = at least 4 workers")
+	defer st.Flush()
+	vpC17Once.Do(func() {
+		var err error
+		vpC17Echo, err = harn.Listen("echo", "127.0.0.1:0", true)
+		if err != nil {
+			t.Fatalf("listen: %v", err)
+		}
+		vpC17Shut, err = net.Listen("tcp", "127.0.0.1:0")
+		if err != nil {
+			t.Fatalf("listen: %v", err)
+		}
+		go func() {
+			for {
+				c, err := vpC17Shut.Accept()
+				if err != nil {
+					return
+				}
+				c.Close()
+			}
+		}()
+	})
+	_, remotePub, _ := crypto.GenerateEphemeralKeypair()
+	var base uint64 = 1 << 40
+	rapid.Check(t, func(t *rapid.T) {
+		cfg := exit.DefaultHandlerConfig()
+		_, nw, _ := net.ParseCIDR("127.0.0.0/24")
+		cfg.AllowedRoutes = []*net.IPNet{nw}
+		cfg.ConnectTimeout = time.Second
+		cfg.MaxConnections = 0
+		w := harn.NewWriter()
+		h := exit.NewHandler(cfg, identity.AgentID{9}, w)
+		h.Start()
+		defer h.Stop()
+		g := rapid.IntRange(2, 8).Draw(t, "workers")
+		k := rapid.IntRange(5, 40).Draw(t, "cycles")
+		plan := make([][]int, g)
+		for i := range plan {
+			plan[i] = rapid.SliceOfN(rapid.IntRange(0, 23), k, k).Draw(t, fmt.Sprintf("plan%d", i))
+		}
+		base += 1 << 20
+		var wg sync.WaitGroup
+		var noReply atomic.Int64
+		for i := 0; i < g; i++ {
+			wg.Add(1)
+			go func(i int) {
+				defer wg.Done()
+				private := identity.AgentID{byte(20 + i)}
+				for j, code := range plan[i] {
+					id := base + uint64(i)<<12 + uint64(j)*2
+					peer := []identity.AgentID{{7}, {8}, private}[code%3]
+					kind, end := (code/3)%4, code/12
+					addr, port := "127.0.0.1", uint16(vpC17Echo.Port)
+					switch kind {
+					case 1:
+						port = 1
+					case 2:
+						addr = "127.0.1.1"
+					case 3:
+						port = uint16(vpC17Shut.Addr().(*net.TCPAddr).Port)
+					}
+					h.HandleStreamOpen(context.Background(), id, id, peer, addr, port, remotePub)
+					if _, ok := w.WaitReply(id, 1, 5*time.Second); !ok {
+						noReply.Add(1)
+						continue
+					}
+					switch {
+					case end == 0:
+						h.HandleStreamClose(peer, id)
+					case end == 1 && peer == private:
+						h.ClosePeerConnections(peer)
+					case end == 1:
+						// the same tunnel ended from three sides at once: the peer's close, a reset, and
+						// the cleanup after the peer's link dropped (each runs on a goroutine of its own
+						// in an agent; the destination's own end may join in)
+						var cw sync.WaitGroup
+						var rdy atomic.Int64
+						for _, f := range []func(){
+							func() { h.HandleStreamClose(peer, id) },
+							func() { h.HandleStreamReset(peer, id, 1) },
+							func() { h.HandleStreamClose(peer, id) },
+						} {
+							cw.Add(1)
+							go func(f func()) {
+								defer cw.Done()
+								rdy.Add(1)
+								for rdy.Load() < 3 {
+									runtime.Gosched()
+								}
+								f()
+							}(f)
+						}
+						cw.Wait()
+					default:
+						h.HandleStreamReset(peer, id, 1)
+						h.HandleStreamClose(peer, id)
+					}
+				}
+			}(i)
+		}
+		wg.Wait()
+		if noReply.Load() > 0 {
+			t.Fatalf("VPFAIL C17 %d concurrent opens were never answered", noReply.Load())
+		}
+		for i := 0; i < 4000 && h.ConnectionCount() != 0; i++ {
+			time.Sleep(500 * time.Microsecond)
+		}
+		st.Case(fmt.Sprintf("workers=%d cycles=%d", g, k), g >= 4, fmt.Sprintf("workers-%d", g))
+		if c := h.ConnectionCount(); c != 0 {
+			t.Fatalf("VPFAIL C17 exit handler still counts %d connections after %d workers x %d concurrent open/end cycles, every tunnel ended", c, g, k)
+		}
 	})
 }
